@@ -127,6 +127,8 @@ impl<'a> Tokens<'a>
 				BaseToken::Semicolon => "Expected semicolon.",
 				BaseToken::StringLiteral => "Expected string literal.",
 				BaseToken::Identifier => "Expected identifier.",
+				BaseToken::Comma => "Expected comma.",
+				BaseToken::Colon => "Expected colon.",
 				_ => unreachable!(),
 			};
 			Err(ParsingError::UnexpectedToken {
